@@ -2051,6 +2051,15 @@ func (cs *State) addVote(vote *types.Vote, peerID p2p.ID) (added bool, err error
 	}
 	cs.evsw.FireEvent(types.EventVote, vote)
 
+	if cs.Step == cstypes.RoundStepCommit {
+		// +2/3 precommits for a block have been seen at this height and we are only
+		// waiting for that block (enterCommit). The vote is recorded, but it must not
+		// move us to another round or step: a round skip resets ProposalBlockParts,
+		// the parts of the decided block would then be ignored and, the precommits of
+		// the commit round being duplicates from then on, the commit never finalized.
+		return added, err
+	}
+
 	switch vote.Type {
 	case tmproto.PrevoteType:
 		prevotes := cs.Votes.Prevotes(vote.Round)
